@@ -751,11 +751,16 @@ impl RenderContext {
             return Err(Error::IncompleteFrame);
         }
 
-        let lf_frame_idx = self.lf_frame[header.lf_level as usize];
+        // A frame that is already loaded completely is rendered with the frames it depended on
+        // when it was loaded; `self.reference` may have been overwritten by later frames.
+        let (lf_frame_idx, reference) = match self.frame_deps.get(frame.index()) {
+            Some(deps) => (deps.lf, deps.ref_slots),
+            None => (self.lf_frame[header.lf_level as usize], self.reference),
+        };
         if header.flags.use_lf_frame() {
             self.spawn_renderer(lf_frame_idx);
         }
-        for idx in self.reference {
+        for idx in reference {
             if idx != usize::MAX {
                 self.spawn_renderer(idx);
             }
@@ -774,7 +779,7 @@ impl RenderContext {
                     frame: Arc::clone(&self.frames[lf_frame_idx]),
                     image: Arc::clone(&self.renders_narrow[lf_frame_idx]),
                 }),
-                refs: self.reference.map(|r| {
+                refs: reference.map(|r| {
                     (r != usize::MAX).then(|| Reference {
                         frame: Arc::clone(&self.frames[r]),
                         image: Arc::clone(&self.renders_narrow[r]),
@@ -836,7 +841,7 @@ impl RenderContext {
                     frame: Arc::clone(&self.frames[lf_frame_idx]),
                     image: Arc::clone(&self.renders_wide[lf_frame_idx]),
                 }),
-                refs: self.reference.map(|r| {
+                refs: reference.map(|r| {
                     (r != usize::MAX).then(|| Reference {
                         frame: Arc::clone(&self.frames[r]),
                         image: Arc::clone(&self.renders_wide[r]),
